@@ -77,7 +77,16 @@ pub fn case(ctx: &mut Ctx, idx: u64) {
         mode: Some(0),
         ..Mix::default()
     };
-    let Some((mc, map)) = gen::gen_domain_map(&mut rng, &mx, Domain::Adversarial) else {
+    // one case in 300: a map with a slider lasting for weeks (duration around i32::MAX ms); only conversions are run here, so
+    // the nested-object bound of the calculation domain does not apply
+    let generated = if rng.below(300) == 0 {
+        ctx.count("class:giant-slider");
+        let text = crate::osu::giant_slider_file(&mut rng).render();
+        crate::maps::decode(&text).map(|m| (gen::MapCase { text, tag: "giant-slider".into() }, m))
+    } else {
+        gen::gen_domain_map(&mut rng, &mx, Domain::Adversarial)
+    };
+    let Some((mc, map)) = generated else {
         ctx.count("skipped_no_domain_map");
         return;
     };
